@@ -615,6 +615,40 @@ def run(prop, tier, seed):
                 project_one(sc_["id"], {}, [], dby[sc_["id"]], lines)
                 index.append((start, len(lines), sc_["id"]))
             nsc += len(dup_scs)
+        # "singly or in batches": the two endpoints keep ONE record per key.  An older request through one endpoint, then the first of a
+        # conflicting pair through the OTHER endpoint (a batch of two keys / a single request), then the second of the pair through either:
+        # a record written by one endpoint must be what the other endpoint's next check reads
+        mixep_scs = []
+        if prop == "C01" and "attpairs" in table:
+            conc0 = concs[0][1]
+            # (pairs whose second request is refused BECAUSE of the first: alone - or after the older (0,0) - it would be signed)
+            hotm = sorted((q for q in table["attpairs"] if q["v1"] == "APPROVED" and q["v2"] == "DENIED" and 0 < q["t1"] < 4 and q["s2"] < q["t2"] < 4), key=lambda q: json.dumps(q, sort_keys=True))
+            for qi, q in enumerate(rnd.sample(hotm, min(len(hotm), 48 if tier == "quick" else 480))):
+                e0 = dict(k=0, s=0, t=0, root="A")
+                e1 = dict(k=0, s=q["s1"], t=q["t1"], root=q["r1"])
+                e2 = dict(k=0, s=q["s2"], t=q["t2"], root=q["r2"])
+                def one_(i_, e_):
+                    return dict(id="x%d" % i_, kind="att", ents=[e_])
+                def two_(i_, e_):
+                    o_ = dict(e_, k=1)
+                    return dict(id="x%d" % i_, kind="atts", ents=[[e_, o_], [o_, e_]][(qi + i_) % 2])
+                shape = [(one_, two_, one_), (one_, two_, two_), (two_, one_, two_), (two_, one_, one_)][qi % 4]
+                ops = [shape[0](0, e0), shape[1](1, e1), shape[2](2, e2)]
+                if qi % 8 >= 4:
+                    ops.insert(2, dict(id="ex", kind="export"))
+                mixep_scs.append(dict(id="C01-mixep-%d" % qi, world=dict(nkeys=2), conc=conc0, ops=ops))
+            mev_, mrc_, merr_ = run_driver(mixep_scs, wd, tag="mixep", timeout=300)
+            if mrc_ != 0:
+                raise Inconclusive("mixed-endpoint scenarios: driver exited %s: %s" % (mrc_, merr_[-300:]))
+            mby_ = split_scenarios(mev_)
+            if os.environ.get("VERIF_DEBUG"):
+                json.dump(dict(scs=mixep_scs, ev=mev_), open("/tmp/mixep_dbg.json", "w"))
+            for sc_ in mixep_scs:
+                start = len(lines) + 1
+                project_one(sc_["id"], {}, [], mby_[sc_["id"]], lines)
+                index.append((start, len(lines), sc_["id"]))
+                nreq += sum(1 for e in mby_[sc_["id"]] if e["ev"] == "Respond")
+            nsc += len(mixep_scs)
         # the write of the record fails (injected storage error that persists over retries) for a request AND for its conflicting twin:
         # a lifetime that includes a full disk or a store being closed must not contain both signatures either
         fault_scs = []
@@ -758,7 +792,7 @@ def run(prop, tier, seed):
                 for s in b.scenarios:
                     if s["id"] == sid:
                         sc, smeta, sfloors = s, b.meta[sid], b.expect[sid]["floors"]
-            for s in race_scs + fault_scs + dup_scs + mix_scs + (par_scs if prop in ('C01', 'C02') else []) + (overlap_scs if prop == "C09" else []):
+            for s in race_scs + fault_scs + dup_scs + mixep_scs + mix_scs + (par_scs if prop in ('C01', 'C02') else []) + (overlap_scs if prop == "C09" else []):
                 if s["id"] == sid:
                     sc, smeta, sfloors = s, {}, []
             if binary and sid in remote_lookup:
